@@ -136,6 +136,11 @@ func (c *collection) deleteIndexedDocWithID(
 	if err != nil {
 		return err
 	}
+	if doc == nil {
+		// The document does not exist (or is already deleted): there are no index
+		// entries to remove. The caller reports the missing document.
+		return nil
+	}
 	return c.deleteIndexedDoc(ctx, doc)
 }
 
